@@ -66,7 +66,7 @@ impl Prop for C18 {
     fn assumptions(&self) -> Vec<String> {
         vec![
             "each `*` of a suggestion stands for a letter (a literal `*` is the multiplication token); the executed line has every `*` replaced by `x`".into(),
-            "for a statement spanning several lines (multi-line string inside it) any line of the statement is accepted as 'the correct line'".into(),
+            "for a statement spanning several lines (multi-line string or comment inside it) any line of the statement is accepted as 'the correct line': the statement does not single one out".into(),
             "suggested numeric literals are compared with the reported value with the tolerance of C11 (exact for integers below 2^53 without a period)".into(),
         ]
     }
@@ -119,6 +119,9 @@ impl Prop for C18 {
         // diags on the same line may legitimately come in either statement order only if they are on one line: match greedily
         let mut used = vec![false; diags.len()];
         for e in &exp_sorted {
+            // "the correct line": the statement does not single out one line of a statement that spans several; rrss itself
+            // reports the line of the value's first *operand* (`put without (c⏎c) 1e999 into X` -> the line of 1e999), so any
+            // line the statement occupies is accepted (a tighter rule raised a false alarm, see DESIGN.md section 9)
             let lo = r.stats.stmt_lines[e.stmt];
             let hi = r.stats.stmt_end_lines[e.stmt].max(lo);
             let want_issue = issue_text(&e.value, &e.target);
